@@ -36,8 +36,8 @@ pub struct C18;
 /// f32 machine epsilon (2^-23) as f64
 const EPS: f64 = f32::EPSILON as f64;
 /// Band of view scales in which the relations are judged (DESIGN.md C18)
-const BAND_LO: f64 = 1e-4;
-const BAND_HI: f64 = 1e4;
+const BAND_LO: f64 = 1e-7;
+const BAND_HI: f64 = 1e7;
 /// Stated tolerance: relative 1e-4 of the view scale
 const REL_TOL: f64 = 1e-4;
 /// Multiplier of the f32 rounding budget (see `tol`)
@@ -1913,7 +1913,7 @@ impl Prop for C18 {
     }
     fn assumptions(&self) -> Vec<String> {
         vec![
-            "scroll amounts are truncated so that the view scale stays within [1e-4, 1e4]; initial views have positive scale, in-range angles and finite centre".into(),
+            "scroll amounts are truncated so that the view scale stays within [1e-7, 1e7]; initial views have positive scale, in-range angles and finite centre".into(),
             "screen-to-world is taken from the RegionSize documentation (centre -> 0, short axis -> +-1, y flipped, +1 one pixel above the top row, 3D cursor at voxel z = 0); cursor events on zero-sized images are skipped (no screen-to-world map exists)".into(),
             "'same model point' = within 1e-4 * scale * max(1, |world cursor|) + 32 * f32 epsilon * (|centres| + scale * |world cursor|); in 3D the deviation across the viewing axis is judged".into(),
             "'changed' flag: only (view bit-identical => flag false) is judged, as stated; the converse is counted, not judged".into(),
